@@ -18,19 +18,48 @@ Next == FALSE /\ c' = c
 
 DocsOf(hits) == [i \in DOMAIN hits |-> hits[i][1]]
 
-Expected(m, q, o) ==
+\* ---- spelling suggestions (C19) -----------------------------------------------
+\* o = [f, word, k, p, limit, list]: list = the suggested terms in the order returned.
+\* A suggestion is an existing term within distance k sharing the prefix, never the word
+\* itself; closer terms come first, more frequent ones first among equally close ones;
+\* a limit cuts the list without dropping a strictly better candidate.
+TermFreq(idx, f, t) == LET RECURSIVE S(_)
+                           S(d) == IF d < 0 THEN 0 ELSE S(d - 1) + Tf(idx, d, f, t)
+                       IN S(Len(idx.docs) - 1)
+SugCand(idx, o) == {t \in Lexicon(idx, o.f) : /\ DL(o.word, t) <= o.k
+                                              /\ Len(t) >= Min2(o.p, Len(o.word))
+                                              /\ SubSeq(t, 1, Min2(o.p, Len(o.word))) = SubSeq(o.word, 1, Min2(o.p, Len(o.word)))}
+SugBetter(idx, o, a, b) ==      \* a is strictly better than b
+  \/ DL(o.word, a) < DL(o.word, b)
+  \/ (DL(o.word, a) = DL(o.word, b) /\ TermFreq(idx, o.f, a) > TermFreq(idx, o.f, b))
+SuggestFacts(idx, o) ==
+  LET L == o.list
+      cand == SugCand(idx, o)
+      LS == ToSet(L)
+  IN [existing_within_distance |-> LS \subseteq cand /\ Cardinality(LS) = Len(L),
+      not_the_word_itself |-> o.word \notin LS,
+      closer_then_more_frequent_first |-> \A i, j \in DOMAIN L : i < j => ~SugBetter(idx, o, L[j], L[i]),
+      limit_keeps_the_best |-> /\ Len(L) <= o.limit
+                               /\ \A t \in (cand \ {o.word}) \ LS : /\ Len(L) >= o.limit
+                                                                     /\ \A x \in LS \ {o.word} : ~SugBetter(idx, o, t, x)]
+
+Expected(idx, m, q, o) ==
   CASE o.kind = "ids" -> [ids |-> Ids(m)]
     [] o.kind = "count" -> [n |-> Cardinality(DOMAIN m)]
     [] o.kind = "ranked" -> [hits |-> Hits(m, TopK(m, o.k)), scored |-> Scored(q)]
     [] o.kind = "error" -> [noerror |-> TRUE]
     [] o.kind = "list" -> [list |-> Hits(m, Ids(m)), scored |-> Scored(q)]
     [] o.kind = "flag" -> [value |-> TRUE]
+    [] o.kind = "suggest" -> SuggestFacts(idx, o)
     [] o.kind = "atleast" -> [n |-> Cardinality(DOMAIN m)]
 
-ObsOK(m, q, o) ==
+ObsOK(idx, m, q, o) ==
   CASE o.kind = "ids" -> o.ids = Ids(m)
     [] o.kind = "count" -> o.n = Cardinality(DOMAIN m)
     [] o.kind = "error" -> FALSE      \* a search of a well-formed query never raises
+    [] o.kind = "suggest" -> LET F == SuggestFacts(idx, o) IN
+                                /\ F.existing_within_distance /\ F.not_the_word_itself
+                                /\ F.closer_then_more_frequent_first /\ F.limit_keeps_the_best
     [] o.kind = "flag" -> o.value      \* a boolean fact observed on the code that must be true (e.g. idempotence)
     [] o.kind = "atleast" -> o.n >= Cardinality(DOMAIN m)     \* estimate_size() is an upper bound
     [] o.kind = "list" ->             \* what stepping a top-level matcher delivered, in docnum order
@@ -48,7 +77,7 @@ Inv ==
       qo == cs.qs[c[2]]
       m == Denote(cs.idx, qo.q)
   IN \A j \in DOMAIN qo.obs :
-       \/ ObsOK(m, qo.q, qo.obs[j])
+       \/ ObsOK(cs.idx, m, qo.q, qo.obs[j])
        \/ PrintT(<<"REJECT", ToJson([tid |-> c[1], qi |-> c[2], oi |-> j,
-                                      expected |-> Expected(m, qo.q, qo.obs[j])])>>)
+                                      expected |-> Expected(cs.idx, m, qo.q, qo.obs[j])])>>)
 =============================================================================
